@@ -53,8 +53,9 @@ CHECKS = {
                      'for the Surface-17 layout sub-chains over a kernel-checked table; generator tied to the real '
                      'export text and to stim\'s tableau simulator.', ref='DESIGN.md §4 C09'),
     'C10': dict(text='General no-overlap theorems about the timing evaluator (FOLLOWED_BY chains, block after block, interval covers '
-                     'nodes) for all non-negative durations; verified symbolic-schedule checker evaluated by the kernel on generated '
-                     'library heaps (partial: ≤ 110 objects, as constructed); constructors × random duration settings on the '
+                     'nodes) for all non-negative durations; layer theorem nested_layers_no_double_booking for any number of qubits, layers and nesting '
+                     'levels; verified symbolic-schedule checker and verified layered checker evaluated by the kernel on library heaps regenerated on every run '
+                     '(partial: 81 heaps, ≤ 822 objects, as constructed and unrolled); constructors × random duration settings on the '
                      'implementation and through the recorder + model.', ref='DESIGN.md §4 C10'),
     'C11': dict(text='Flatten: leaf multiset, no remaining sub-circuit and idempotence are checked on the implementation at every flatten '
                      'of implicitly sequenced programs and against the model; flatten_listing_perm / flatten_no_composite and idempotence (same listing, same schedule, for circuits without group links among the listed operations) are theorems; apply_flatten_to_self is proved equal to its SOURCE TEXT; the layer bound of the graph walk is extracted and pinned and a flatten deeper than 1000 layers is run on every check; library '
